@@ -251,6 +251,8 @@ func runC03(c *eng.Ctx) {
 		c.Guard("GUARD-verify", "offset-check-for-other-sizes", fn, eng.Entry(fn), live, eng.FailEdges(fn, tomb), "entries with size >= 0 (empty blobs included) are verified at their offset")
 	}
 
+	entryJudgedByData(c, "ERR-verify")
+
 	// (4b) the torn tail is cut at the END of the last indexed record
 	if fn := c.NeedFunc("weed/storage", "verifyNeedleIntegrity"); fn != nil {
 		for i, tr := range eng.Find(fn, eng.PlainCallTo("backend.BackendStorageFile).Truncate")) {
@@ -288,6 +290,33 @@ func runC03(c *eng.Ctx) {
 				"the append position of a freshly opened data file is rounded up to NeedlePaddingSize (a torn, unaligned tail must not shift later records off the 8-byte grid that index offsets assume)")
 		}
 	}
+
+	// (4d) the position appends are computed from (GetStat) and the position Write writes at are both that rounded value
+	if fn := c.NeedFunc("weed/storage/backend", "(*DiskFile).GetStat"); fn != nil {
+		rets := eng.Find(fn, eng.IsReturn)
+		for i, r := range rets {
+			ret := r.(*ssa.Return)
+			ok := len(ret.Results) == 3
+			if ok {
+				vals := eng.ResolveFrom(ret.Results[0], ret)
+				for _, v := range vals {
+					if !eng.IsField(eng.Unwrap(v), "DiskFile.fileSize") {
+						ok = false
+					}
+				}
+				ok = ok && len(vals) > 0
+			}
+			c.Ob("ALIGN-open", fmt.Sprintf("%s reports-append-position#%d", eng.FuncName(fn), i), ok, r.Pos(),
+				"the size a disk-backed data file reports (the offset the next record is indexed at) is the aligned append position DiskFile maintains, not the raw file length")
+		}
+	}
+	if fn := c.NeedFunc("weed/storage/backend", "(*DiskFile).Write"); fn != nil {
+		for i, in := range eng.Find(fn, eng.PlainCallTo("backend.DiskFile).WriteAt")) {
+			c.Ob("ALIGN-open", fmt.Sprintf("%s appends-at-position#%d", eng.FuncName(fn), i), eng.IsField(eng.Unwrap(eng.Arg(in.(*ssa.Call), 1)), "DiskFile.fileSize"), in.Pos(),
+				"an append writes at the aligned append position DiskFile maintains")
+		}
+	}
+	c.Expect("ALIGN-open", 3)
 
 	// (5) CheckAndFixVolumeDataIntegrity
 	if fn := c.NeedFunc("weed/storage", "CheckAndFixVolumeDataIntegrity"); fn != nil {
@@ -345,5 +374,35 @@ func runC03(c *eng.Ctx) {
 			c.Guard("GUARD-idx-truncate", "only-when-smaller", fn, eng.Entry(fn), trunc, eng.PassEdges(fn, lt), "the index is truncated only when healthy size < index size")
 		}
 		c.ErrChecked("ERR-verify", "verifyIndexFileIntegrity", fn, eng.Find(fn, eng.PlainCallTo("weed/storage.verifyIndexFileIntegrity")), "a corrupt index size fails the check")
+	}
+}
+
+// entryJudgedByData: the per-entry check of the index tail calls an entry "not backed by data" (any error, io.EOF in
+// particular, which makes the caller cut the index) only on the word of a read of the index or of the data file: every
+// error it returns is nil, wraps such a read's error, or is that error. An entry without a data position (offset 0:
+// the tombstones replayed at a compaction commit) is never judged.
+func entryJudgedByData(c *eng.Ctx, rule string) {
+	fn := c.NeedFunc("weed/storage", "doCheckAndFixVolumeData")
+	if fn == nil {
+		return
+	}
+	for i, r := range eng.Find(fn, eng.IsReturn) {
+		ret := r.(*ssa.Return)
+		op := eng.ReturnErrOperand(ret)
+		ok := op != nil
+		bad := ""
+		if ok {
+			for _, v := range eng.ResolveFrom(op, ret) {
+				// the caller acts on the sentinels io.EOF (cut the index here) and ErrorSizeMismatch (look further back):
+				// a sentinel returned directly, not handed up from a read or a verification, is a judgement without data
+				if u, isLoad := eng.Unwrap(v).(*ssa.UnOp); isLoad && u.Op == token.MUL {
+					if g, isG := u.X.(*ssa.Global); isG {
+						ok, bad = false, "(returns "+g.Name()+" itself)"
+					}
+				}
+			}
+		}
+		c.Ob(rule, fmt.Sprintf("%s judged-by-data return#%d", eng.FuncName(fn), i), ok, r.Pos(),
+			"an index entry is reported as bad only with an error that comes from reading the index or verifying the data file (an entry with no data position is never judged) "+bad)
 	}
 }
